@@ -68,6 +68,7 @@ func c04lambda(c *core.Ctx, r *core.Reporter) {
 
 	c04keyscan(c, r, fn)
 	c04generic(c, r)
+	c04keyfirst(c, r, fn)
 
 	// C04.lam: marker constants compared per top-level loop and per arm of the mode switch
 	loops := core.Loops(fn)
@@ -342,5 +343,118 @@ func c04generic(c *core.Ctx, r *core.Reporter) {
 			key := fmt.Sprintf("pkg/generic.(Aux).Call|invocation %d (%s)", n, name)
 			r.Decide(checked(b), rule, key, c.Pos(call.Pos()), fmt.Sprintf("reached only with the required-argument count checked: %v", checked(b)))
 		}
+	}
+}
+
+// c04keyfirst: of duplicate keyword arguments the leftmost binds (CLHS 3.4.1.4).
+func c04keyfirst(c *core.Ctx, r *core.Reporter, lamCall *ssa.Function) {
+	const rule = "C04.keyfirst"
+	r.Rule(rule, "of duplicate keyword arguments the leftmost one binds: (a) the shared keyword lookup of the built-ins (GetArgsKeyValue) leaves its loop on the first match, and (b) the keyword pass of (*Lambda).Call binds a key only under a test that the new scope does not hold it yet", 2)
+	// (a) GetArgsKeyValue
+	if obj := c.LookupFunc("", "GetArgsKeyValue"); obj == nil {
+		r.Undecided(rule, "slip.GetArgsKeyValue", "-", "anchor does not resolve")
+	} else {
+		fn := c.SSAFunc(obj)
+		loops := core.Loops(fn)
+		ok, seenMatch := true, false
+		for _, b := range fn.Blocks {
+			ifi, isIf := b.Instrs[len(b.Instrs)-1].(*ssa.If)
+			if !isIf {
+				continue
+			}
+			call, isCall := ifi.Cond.(*ssa.Call)
+			if !isCall {
+				continue
+			}
+			g := call.Call.StaticCallee()
+			if g == nil || g.Pkg == nil || g.Pkg.Pkg.Path() != "strings" || g.Name() != "EqualFold" {
+				continue
+			}
+			seenMatch = true
+			l := core.InnermostLoop(loops, b)
+			if l == nil {
+				continue
+			}
+			// the matching branch must not come back to the loop header
+			reach := core.ReachableBlocks(b.Succs[0], nil)
+			if reach[l.Header] {
+				ok = false
+			}
+		}
+		if !seenMatch {
+			r.Undecided(rule, "slip.GetArgsKeyValue", c.Pos(fn.Pos()), "the key comparison was not recognised")
+		} else {
+			r.Decide(ok, rule, "slip.GetArgsKeyValue", c.Pos(fn.Pos()), fmt.Sprintf("the loop is left on the first matching key: %v", ok))
+		}
+	}
+	// (b) Lambda.Call: every Let whose value is an element of the argument list taken inside a loop over the
+	// arguments (the keyword pass) is guarded by a lookup in the new scope's own table
+	loops := core.Loops(lamCall)
+	var argsP *ssa.Parameter
+	for _, p := range lamCall.Params {
+		if core.IsNamed(p.Type(), core.SlipPath, "List") {
+			argsP = p
+		}
+	}
+	an := lenflow.New(c)
+	g := core.ComputeGuards(lamCall, an.NoReturn)
+	n := 0
+	for _, b := range lamCall.Blocks {
+		for _, in := range b.Instrs {
+			call, ok := in.(*ssa.Call)
+			if !ok || callMethodName(call) != "Let" || len(call.Call.Args) < 3 {
+				continue
+			}
+			// the bound name must come from the arguments (a keyword symbol), not from the lambda list
+			nameFromArgs := false
+			var walk func(v ssa.Value, d int)
+			walk = func(v ssa.Value, d int) {
+				if d > 6 || v == nil {
+					return
+				}
+				switch x := v.(type) {
+				case *ssa.UnOp:
+					if ia, ok := x.X.(*ssa.IndexAddr); ok && ia.X == ssa.Value(argsP) {
+						nameFromArgs = true
+					}
+				case *ssa.TypeAssert:
+					walk(x.X, d+1)
+				case *ssa.Extract:
+					walk(x.Tuple, d+1)
+				case *ssa.Slice:
+					walk(x.X, d+1)
+				case *ssa.Phi:
+					for _, e := range x.Edges {
+						walk(e, d+1)
+					}
+				case *ssa.ChangeType:
+					walk(x.X, d+1)
+				}
+			}
+			walk(call.Call.Args[1], 0)
+			if !nameFromArgs || core.InnermostLoop(loops, b) == nil {
+				continue
+			}
+			n++
+			guarded := false
+			for f := range g.Facts(b) {
+				// v, dup := ss.Vars[name]; if !dup
+				ex, ok := f.If.Cond.(*ssa.Extract)
+				if !ok || ex.Index != 1 {
+					continue
+				}
+				if lk, ok := ex.Tuple.(*ssa.Lookup); ok && lk.CommaOk && !f.Branch {
+					if u, ok := lk.X.(*ssa.UnOp); ok {
+						if fa, ok := u.X.(*ssa.FieldAddr); ok && fieldName(fa) == "Vars" {
+							guarded = true
+						}
+					}
+				}
+			}
+			r.Decide(guarded, rule, fmt.Sprintf("slip.(Lambda).Call|keyword binding %d", n), c.Pos(call.Pos()), fmt.Sprintf("bound only when the new scope does not hold the key yet: %v", guarded))
+		}
+	}
+	if n == 0 {
+		r.Undecided(rule, "slip.(Lambda).Call|keyword binding", c.Pos(lamCall.Pos()), "the keyword pass was not recognised")
 	}
 }
